@@ -33,8 +33,9 @@ type histOpts struct {
 	TimeStep  int64
 	TimeBase  int64
 	MsgPrefix string
-	Parents   [][]int // explicit shape (overrides the random one)
-	Rekey     bool    // some commits store their rows under the key (id, a): same blocks, different block indices
+	Parents   [][]int     // explicit shape (overrides the random one)
+	RevertTo  map[int]int // commit i carries exactly the rows of the older commit RevertTo[i]
+	Rekey     bool        // some commits store their rows under the key (id, a): same blocks, different block indices
 }
 
 func cloneRows(rows [][]string) [][]string {
@@ -151,6 +152,12 @@ func buildHistory(db objects.Store, rng *rand.Rand, o histOpts) (*history, error
 			rows = rows[:255*((len(rows)-1)/255)]
 		case rng.Intn(14) == 0:
 			rows = nil // a header-only table
+		case i > 2 && rng.Intn(8) == 0:
+			// a revert: exactly the table of an older commit (not the parent's)
+			rows = cloneRows(h.rows[rng.Intn(i-1)])
+		}
+		if j, ok := o.RevertTo[i]; ok && j < i {
+			rows, cols = cloneRows(h.rows[j]), h.cols
 		}
 		tsum, err := ingestRows(db, cols, pk, rows)
 		if err != nil {
